@@ -17,7 +17,7 @@ SEQS = (
     '', sgr('1'), sgr('31'), sgr('1;31'), sgr('22'), sgr('0'), sgr(''), sgr('38;5;214'), sgr('1;38;5;214'),
     sgr('4;38;5;200;1'), sgr('48;2;1;2;3;4'), sgr('39'), sgr('77'), sgr('38;5'), sgr('1') + sgr('31'),
     ESC + '[2J', ESC + '[1;2H', ESC + '[12', sgr('1;;31'), sgr('01;031'), sgr('58;2;1;2;3;21'), sgr('2;38;2;1;2'),
-    sgr(';1'), sgr('31;'), sgr('39;38;5;9'), sgr('0;1'), sgr('1;0'),
+    sgr(';1'), sgr('31;'), sgr('39;38;5;9'), sgr('0;1'), sgr('1;0'), ESC + '[3~', ESC + '[@', sgr('38;5;9;1') + ESC + '[}',
 )
 TEXTS1 = ('', 'x', 'xy')
 TEXTS2 = ('', 'x', ESC, '[', 'm', '1', ';')
@@ -105,7 +105,7 @@ BOUNDS = {
     'quick': 'inputs = seq+text+seq+text with seq from a %d-sequence alphabet (SGR with single/multi/extended/incomplete/empty-field params, '
              'back-to-back, non-SGR CSI, unterminated CSI) and texts from small palettes incl. ESC, "[", "m", ";", digit; 2 segments with '
              '4 sequences and symbolic 1-char texts (any Unicode); plain ESC-free texts of length <=3 (symbolic); free code 0..256 in 6 contexts x 3 priors' % len(SEQS),
-    'thorough': '3 segments over the full alphabet; symbolic texts with 8 sequences; plain texts <=5',
+    'thorough': '3 segments over the full alphabet (outer texts "x", middle text from the palette); symbolic texts with 8 sequences; plain texts <=5',
 }
 OUTSIDE = ('sequences outside the alphabet; parameters that are not plain decimal numbers (blank-padded, signed) and inputs whose terminal reading '
            'the statements leave open (introducer followed by a selector other than 5/2, colour components > 255) are excluded and counted')
@@ -118,15 +118,14 @@ def obligations(tier):
     nq = len(SEQS)
     for q1 in range(nq):
         f = dict(q1=q1, q3=0, t3=0)
-        obs.append(Ob('seg2/q%d' % q1, h_segments, f, need=('sgr',) if q1 not in (0, 15, 16, 17) else (), budget=900,
+        obs.append(Ob('seg2/q%d' % q1, h_segments, f, need=('sgr',) if q1 not in (0, 15, 16, 17, 27, 28) else (), budget=900,
                       bounds='2 segments, first sequence %r' % SEQS[q1], kinds=KINDS))
     obs.append(Ob('seg1/ansistr', h_segments, dict(q2=0, t2=0, q3=0, t3=0, cls=1), need=('sgr', 'no-sgr'), budget=300,
                   bounds='1 segment, AnsiStr', kinds=KINDS))
     if tier == 'thorough':
         for q1 in range(nq):
-            for q2 in range(nq):
-                obs.append(Ob('seg3/q%d/q%d' % (q1, q2), h_segments, dict(q1=q1, q2=q2), need=(), budget=2400,
-                              bounds='3 segments, first two sequences fixed', kinds=KINDS))
+            obs.append(Ob('seg3/q%d' % q1, h_segments, dict(q1=q1, t1=1, t3=1), need=(), budget=3000,
+                          bounds='3 segments (texts x / palette / x), first sequence %r' % SEQS[q1], kinds=KINDS))
         obs.append(Ob('symbolic/8', h_symbolic, dict(seqs=(1, 8, 4, 15, 5, 13, 17, 18)), need=('sgr', 'esc-kept-in-text'), budget=3000, per_path=60,
                       bounds='2 segments, 8 sequences, symbolic 1-char texts', kinds=KINDS))
     obs.append(Ob('symbolic/4', h_symbolic, {}, need=('sgr',), budget=900, per_path=60,
